@@ -45,6 +45,8 @@ package keys
 //@ func (kb dbKeybase) ExportPrivKeyEncryptedArmor(address types.Address, decryptPassphrase, encryptPassphrase, hint string) (armor string, err error)
 //@   props C19
 //@   ensures err == nil ==> kb_present(address) && decrypt_ok(kb_armor(address), decryptPassphrase)
+// the export is encrypted under exactly the passphrase chosen for the export (seed C19c)
+//@   ensures [export-pass] err == nil ==> decrypt_ok(armor, encryptPassphrase) && (forall p string :: {decrypt_ok(armor, p)} decrypt_ok(armor, p) ==> p == encryptPassphrase)
 //@   ensures kbdb.writes == old(kbdb.writes)
 
 // C19: a key is stored encrypted under exactly the passphrase the caller chose for storage
